@@ -564,12 +564,18 @@ package binary
 //@ contract NewStreamWriter
 //@   props C02
 //@   modifies nothing
-//@   ensures result != nil && fresh(result) && result.writer == w
+//@   ensures result != nil && fresh(result) && result.writer == w && !inpool(result)
 
+//@ contract returnStreamWriter
+//@   props C02
+//@   requires sw != nil && !inpool(sw)
+//@   modifies sw.writer, inpool(sw)
+//@   ensures(returned) inpool(sw)
 //@ contract (*StreamWriter).Close
-//@   trusted
-//@   modifies sw.writer
-//@   ensures result == nil
+//@   props C02
+//@   requires sw != nil && !inpool(sw)
+//@   modifies sw.writer, inpool(sw)
+//@   ensures(returned) result == nil && inpool(sw)
 
 // A pooled reader carries whatever its previous user left: every field the
 // reader relies on is re-established here (C03: a stale seek-based discard on a
@@ -577,19 +583,25 @@ package binary
 //@ contract NewStreamReader
 //@   props C02 C03
 //@   modifies nothing
-//@   ensures result != nil && fresh(result) && result.reader == r
+//@   ensures result != nil && fresh(result) && result.reader == r && !inpool(result)
 //@   ensures(discardstream) !implements(r, io.Seeker) ==> result.discard == result._discardStream
 //@   ensures(discardseek) implements(r, io.Seeker) ==> result.discard == result._discardSeek && result._seeker != nil && ref(result._seeker) == ref(r)
 
+//@ contract returnStreamReader
+//@   props C02
+//@   requires sr != nil && !inpool(sr)
+//@   modifies sr.reader, sr._seeker, inpool(sr)
+//@   ensures(returned) inpool(sr)
 //@ contract (*StreamReader).Close
-//@   trusted
-//@   modifies sr.reader, sr._seeker
-//@   ensures result == nil
+//@   props C02
+//@   requires sr != nil && !inpool(sr)
+//@   modifies sr.reader, sr._seeker, inpool(sr)
+//@   ensures(returned) result == nil && inpool(sr)
 
 //@ contract (*Protocol).Reader
 //@   props C12
 //@   modifies nothing
-//@   ensures typeis(result, *StreamReader) && result.(*StreamReader) != nil && fresh(result.(*StreamReader)) && result.(*StreamReader).reader == r
+//@   ensures typeis(result, *StreamReader) && result.(*StreamReader) != nil && fresh(result.(*StreamReader)) && result.(*StreamReader).reader == r && !inpool(result.(*StreamReader))
 
 //@ contract (*StreamReader).ReadEnvelopeEnd
 //@   props C12
@@ -796,7 +808,7 @@ package binary
 //@   props C02 C03
 //@   modifies nothing
 //@   ensures(or) result.or != nil && fresh(result.or) && result.or.offset == off && result.or.reader == r
-//@   ensures(sr) result.sr != nil && fresh(result.sr) && typeis(result.sr.reader, *offsetReader) && result.sr.reader.(*offsetReader) == result.or
+//@   ensures(sr) result.sr != nil && fresh(result.sr) && typeis(result.sr.reader, *offsetReader) && result.sr.reader.(*offsetReader) == result.or && !inpool(result.sr)
 
 // reader.ReadValue: scalars and binaries are the bytes at off, the new offset is
 // where skipping a value of that type from off ends (C03), for every type.
@@ -962,6 +974,7 @@ package binary
 //@   let ra = ll.readerAt
 //@   modifies all, fecalls(ll)
 //@   loop 1: invariant ll.count == n && ll.typ == t && ll.startOffset == start && ll.readerAt == ra && 0 <= i && i <= n
+//@   loop 1: invariant(notreturned) !inpool(reader.sr)
 //@   loop 1: invariant(rd) reader.or != nil && reader.sr != nil && typeis(reader.sr.reader, *offsetReader) && reader.sr.reader.(*offsetReader) == reader.or && reader.or.reader == ra && off >= 0 && off <= 4611686018427387904
 //@   loop 1: invariant(seq) listEnd(a, t, int64(n) - int64(i), off) == listEnd(a, t, int64(n), start)
 //@   loop 1: invariant(calls) fecalls(ll) == c0 + int64(i)
@@ -1004,6 +1017,7 @@ package binary
 //@   let ra = lm.readerAt
 //@   modifies all, fecalls(lm)
 //@   loop 1: invariant lm.count == n && lm.ktype == kt && lm.vtype == vt && lm.startOffset == start && lm.readerAt == ra && 0 <= i && i <= n
+//@   loop 1: invariant(notreturned) !inpool(reader.sr)
 //@   loop 1: invariant(rd) reader.or != nil && reader.sr != nil && typeis(reader.sr.reader, *offsetReader) && reader.sr.reader.(*offsetReader) == reader.or && reader.or.reader == ra && off >= 0 && off <= 4611686018427387904
 //@   loop 1: invariant(seq) mapEnd(a, kt, vt, int64(n) - int64(i), off) == mapEnd(a, kt, vt, int64(n), start)
 //@   loop 1: invariant(calls) fecalls(lm) == c0 + int64(i)
@@ -1075,13 +1089,13 @@ package binary
 //@ contract BorrowWriter
 //@   props C02 C12
 //@   modifies nothing
-//@   ensures result != nil && fresh(result) && result.sw != nil && fresh(result.sw) && result.sw.writer == w
+//@   ensures result != nil && fresh(result) && result.sw != nil && fresh(result.sw) && result.sw.writer == w && !inpool(result) && !inpool(result.sw) && ref(result) != ref(result.sw)
 //@ contract ReturnWriter
-//@   trusted
-//@   modifies w.sw
-//@ contract returnStreamWriter
-//@   trusted
-//@   modifies nothing
+//@   props C02
+//@   requires w != nil && w.sw != nil && !inpool(w) && !inpool(w.sw) && ref(w) != ref(w.sw)
+//@   let sw0 = w.sw
+//@   modifies w.sw, sw0.writer, inpool(w), inpool(sw0)
+//@   ensures(returned) inpool(w) && inpool(sw0)
 
 //@ contract (*Writer).WriteEnveloped
 //@   props C12
